@@ -290,6 +290,61 @@ def run(ctx):
             if counts[ln] != 0:
                 law("on the generated forest %s the law %s is broken: `%s` yields %s (must yield nothing)" % (nm, ln, q, counts[ln]),
                     {"input": nm, "file": pth, "law": ln, "query": q})
+    # ---- value_die::cmp against its model (val/DieCmp.v): all pairs of the DIEs that `entry` (every DIE with
+    # the imports it was reached through), `entry child` (only the imports met while listing the children) and
+    # `raw entry` (raw: no imports) hand out on generated forests; the routes are known by construction
+    from vlib.dwgen import Die as _Die, write_object as _wo
+    def die_lists(forest):
+        ent, kid = [], []
+        def kids(dd, chain):
+            for c_ in dd.children:
+                a_ = c_.attr("DW_AT_import") if c_.tag == "DW_TAG_imported_unit" else None
+                if a_ is not None and isinstance(a_.value, _Die):
+                    yield from kids(a_.value, [c_.off] + chain)
+                else:
+                    yield c_, chain
+        def walk(dd, chain):
+            ent.append((dd.off, 0, chain))
+            for c_, ch_ in kids(dd, []):
+                kid.append((c_.off, 0, ch_))
+            for c_, ch_ in kids(dd, chain):
+                walk(c_, ch_)
+        for u_ in forest.units:
+            if u_.root is not None and u_.root.tag != "DW_TAG_partial_unit":
+                walk(u_.root, [])
+        rawl = [(dd.off, 1, []) for dd in forest.dies()]
+        return ent, kid, rawl
+    drng = ctx.sub_rng("diecmp")
+    dd_ = os.path.dirname(dwin[0][1])
+    dforests = [("imports", dict(dwforest.shaped_forests())["imports"]), ("import-cu", dict(dwforest.shaped_forests())["import-cu"])]
+    dforests += [("dflat%d" % k, dwforest.flat_import_forest(drng)) for k in range(6 if ctx.tier == "quick" else 40)]
+    dforests += [("drand%d" % k, dwforest.random_forest(drng, imports=True, links=False)) for k in range(4 if ctx.tier == "quick" else 30)]
+    MATQ = "(|D| [D entry, D entry child, D raw entry]) (|L| [L elem (|A| L elem (|B| (?(A < B) 0, ?(A == B) 1, ?(A > B) 2)))])"
+    npairs = 0
+    for nm, f_ in dforests:
+        dwforest.fix_small_refs(f_)
+        pth = os.path.join(dd_, "diecmp-" + nm + ".o")
+        _wo(f_, pth)
+        ent, kid, rawl = die_lists(f_)
+        allv = ent + kid + rawl
+        if len(allv) > 160:
+            continue
+        r = zw.run_cases([zw.enc(MATQ, dw=pth, t=120, max=10)])[0]
+        rc_, out_, err_ = common.run([common.model_bin(), "diecmp"], input=";".join("%d %d %s" % (o, rw, ",".join(str(c) for c in ch) or "-") for o, rw, ch in allv) + "\n", timeout=120)
+        want = out_.strip()
+        got = "".join(str(v["v"]) for v in r.results[0][0]["v"]) if r.ok() and r.results else None
+        evaluations += len(allv) ** 2
+        npairs += len(allv) ** 2
+        if got != want:
+            where = ""
+            if got is not None and len(got) == len(want):
+                k_ = next(i for i in range(len(got)) if got[i] != want[i])
+                a_, b_ = allv[k_ // len(allv)], allv[k_ % len(allv)]
+                lab = lambda x, i: "%s DIE %#x (imports %s)" % ("entry" if i < len(ent) else "entry child" if i < len(ent) + len(kid) else "raw", x[0], [hex(c) for c in x[2]])
+                where = ": %s against %s is %s, the model of value_die::cmp says %s" % (lab(a_, k_ // len(allv)), lab(b_, k_ % len(allv)), "<=>"[int(got[k_])], "<=>"[int(want[k_])])
+            else:
+                where = ": %s results for %d values (%s)" % (None if got is None else len(got), len(allv), (r.crash or r.hard or "")[:80] if got is None else "not exactly one of <, ==, > for some pair")
+            law("on the generated forest %s the comparison of DIEs differs from the model%s" % (nm, where), {"input": nm, "file": pth, "law": "die:model", "query": MATQ})
     # ---- infix forms = word forms also when an operand binds names (each operand is a scope of its own)
     BINDERS = ["(let T := 7; T)", "(let T := 7; T 1 add)", "(T 2 add)", "(let U := T; U)", "((|T| T) 1 add)", "(let T := 9; let U := 1; T U add)"]
     bq = []
@@ -321,14 +376,14 @@ def run(ctx):
     ctx.cov.update({
         "evaluations": evaluations,
         "distinct_nontrivial": nontriv,
-        "rule": "all ordered pairs of a %d-value pool (integers in every arithmetic domain, bool, slot-type, DW_*/ELF families with equal and different numbers incl. machine-specific STT/STB, strings with NUL/high bytes/prefixes, nested and heterogeneous sequences, address sets), each compared with 12 word forms and 6 infix forms in one query; non-trivial = the two values are distinct pool entries of the same type; all triples checked for transitivity on the implementation's table; every pair compared with the extracted model; DIEs reached through nested imports, units and attributes of generated forests under the same laws (zero-count queries); infix vs word forms with operands that bind names; + int.cc's six comparison operators on all ordered pairs of %d boundary operands (each value in both internal representations, signed and unsigned)" % (n, len(lat)),
+        "rule": "all ordered pairs of a %d-value pool (integers in every arithmetic domain, bool, slot-type, DW_*/ELF families with equal and different numbers incl. machine-specific STT/STB, strings with NUL/high bytes/prefixes, nested and heterogeneous sequences, address sets), each compared with 12 word forms and 6 infix forms in one query; non-trivial = the two values are distinct pool entries of the same type; all triples checked for transitivity on the implementation's table; every pair compared with the extracted model; DIEs reached through nested imports, units and attributes of generated forests under the same laws (zero-count queries); all pairs of the DIE values that entry / entry child / raw entry hand out on generated forests (nested, repeated, diamond imports) against the model of value_die::cmp; infix vs word forms with operands that bind names; + int.cc's six comparison operators on all ordered pairs of %d boundary operands (each value in both internal representations, signed and unsigned)" % (n, len(lat)),
         "exhaustive": True,
         "samples": [{"query": pair_query(P[1], P[5]), "holds": sorted(table.get((1, 5)) or [])},
                     {"a": P[2], "b": P[20], "holds": sorted(table.get((2, 20)) or [])}],
         "traces_validated_against_impl": len(pairs),
         "pool_size": n, "domain_keys": len(keys), "type_codes": tcs, "triples_checked": triples,
         "disagreements": disagreements, "law_violations": law_viol,
-        "dwarf_law_evaluations": ndw, "infix_word_pairs_with_binding_operands": len(bq),
+        "dwarf_law_evaluations": ndw, "die_pairs_against_model": npairs, "infix_word_pairs_with_binding_operands": len(bq),
     })
     return ctx.finish(oblig)
 
